@@ -275,3 +275,101 @@ def masker_classes(repo: Repo) -> List[ClassInfo]:
     return [c for c in repo.classes.values()
             if repo.find_getter(c, 'theta') is not None and
             repo.find_setter(c, 'trainable') is not None]
+
+
+# ------------------------------------------------------------------------------------------
+# normalisation constants of the continuous effective kernel size
+
+def _deficit_zero(c: Term, env: Dict[Term, Term]) -> Optional[bool]:
+    """Is the non-negative count ``c`` certainly 0 (True) / certainly > 0 (False) under the
+    substitution ``env``?  Loop-accumulated counts appear as the generic summand
+    ``0 + (0 if cond else 1)`` whose inner index stays free: the sum is zero iff the summand
+    is zero for an arbitrary index."""
+    k = poly.is_const(poly.to_poly(c, env))
+    if k is not None:
+        return k == 0
+    if c[0] == 'bin' and c[1] == '+':
+        a, b = _deficit_zero(c[2], env), _deficit_zero(c[3], env)
+        if a is True and b is True:
+            return True
+        if (a is False and b is not None) or (b is False and a is not None):
+            return False
+        return None
+    if c[0] == 'ifexp':
+        t = poly.simplify_truth(poly.substitute(c[1], env), env)
+        a, b = _deficit_zero(c[2], env), _deficit_zero(c[3], env)
+        if t is True:
+            return a
+        if t is False:
+            return b
+        return a if a is not None and a == b else None
+    return None
+
+
+def norm_full_at(repo: Repo, gen: FunctionInfo, k: int) -> Tuple[Dict[str, Optional[bool]], Term]:
+    """For component ``k`` of the tuple returned by a normalisation-constant generator:
+    pos -> is the constant there certainly 1/A with A the full count (True), certainly
+    1/(A - c) with c > 0 (False), or unknown (None); plus A.  Elements have the shape
+    ``1.0 / (A - c(i))`` for i in range(n), the vector optionally flipped."""
+    best = None
+    for p in returning(paths(repo, gen)):
+        if any(e.kind == 'loop0' for e in p.events):
+            continue
+        r = p.retval
+        if r[0] == 'tuple':
+            if k >= len(r[1]):
+                raise AnchorError('generator returns too few components')
+            r = r[1][k]
+        elif k != 0:
+            raise AnchorError('generator does not return a tuple')
+        best = r
+    if best is None:
+        raise AnchorError('generator has no usable return path')
+    t, flips = best, 0
+    ev = AnchorEval({})
+    while True:
+        c, mc = callee(t), method_call(t)
+        if c == 'torch.flip' or c == 'torch.flipud':
+            flips += 1
+            t = t[2][0]
+        elif mc and mc[1] == 'flip':
+            flips += 1
+            t = mc[0]
+        elif c in ('torch.tensor', 'torch.as_tensor', 'torch.Tensor', 'torch.FloatTensor'):
+            t = t[2][0]
+            break
+        elif mc and mc[1] in ('float', 'to', 'clone', 'detach', 'contiguous', 'double', 'type'):
+            t = mc[0]
+        else:
+            raise AnchorError(f'unsupported normalisation constructor {show(t)}')
+    if t[0] == 'comp':
+        if len(t[3]) != 1 or len(t[2]) != 1 or t[3][0][2]:
+            raise AnchorError('nested/filtered comprehension')
+        it = t[3][0][1]
+        e = t[2][0]
+        idx = ev.find_elem(e, it)
+        n = ev.range_len(it)
+    elif t[0] == 'list' and len(t[1]) == 1:
+        e = t[1][0]
+        elems = sorted(ev.elems_of(e), key=lambda x: x[2] if len(x) > 2 else ())
+        if not elems:
+            raise AnchorError('constant does not depend on the position')
+        idx = elems[0]                  # outermost loop variable (lexically first)
+        n = ev.range_len(idx[1])
+    else:
+        raise AnchorError(f'unsupported normalisation list {show(t)}')
+    if not (e[0] == 'bin' and e[1] == '/' and poly.is_const(poly.to_poly(e[2])) == 1):
+        raise AnchorError(f'normalisation element is not a reciprocal: {show(e)}')
+    den = e[3]
+    if den[0] == 'bin' and den[1] == '-':
+        A, c = den[2], den[3]
+    else:
+        A, c = den, ('const', 0)
+    if idx is not None and mentions(A, lambda x: x == idx):
+        raise AnchorError(f'full count {show(A)} depends on the position')
+    out = {}
+    for pos, i in ((S, ('const', 0)), (E, ('bin', '-', n, ('const', 1)))):
+        out[pos] = _deficit_zero(c, {idx: i} if idx is not None else {})
+    if flips % 2:
+        out = {S: out[E], E: out[S]}
+    return out, A
